@@ -25,6 +25,7 @@ type mergeCase struct {
 	Super   bool       `json:"super"`
 	V0      []int      `json:"v0"`      // tables written in the legacy (version 0) layout: no metadata file, values wrapped in a DataEntry message (only tables without nil / empty values)
 	Nest    string     `json:"nest"`    // "" flat stack | "left": Super(Super(t0..tk-1), tk..) | "pairs": Super(Super(t0,t1), Super(t2,t3), ..) | "right": Super(t0, Super(t1..))
+	Damage  *int       `json:"damage"`  // index of a table whose data file gets one byte of every record payload flipped before the readers (verify on read) are opened
 	EmptyAt *int       `json:"emptyat"` // position in the stack at which the library's EmptySStableReader is inserted as one more member (holds nothing: changes nothing)
 	Cmp     string     `json:"cmp"`     // "" bytes | "nocase": all tables, the stack and the merger run under the case-insensitive comparator; every other table spells its keys in upper case
 	Loader  string     `json:"loader"`  // index loader of the input readers: "" default | disk | disk-shared (ONE loader value for all tables) | skiplist | map
@@ -289,6 +290,21 @@ func runMerge(args []string) error {
 				}
 			}
 			ropts := []sstables.ReadOption{sstables.ReadBasePath(dir), sstables.ReadWithKeyComparator(cmp)}
+			if c.Damage != nil {
+				ropts = append(ropts, sstables.SkipHashCheckOnLoad(), sstables.EnableHashCheckOnReads())
+				if *c.Damage == ti {
+					dp := filepath.Join(dir, sstables.DataFileName)
+					if data, err := os.ReadFile(dp); err == nil {
+						starts := recordStarts(data)
+						for si := 0; si+1 < len(starts); si++ {
+							if at := starts[si] + headerLen(data[starts[si]:]) + 1; at < starts[si+1] {
+								data[at] ^= 0x55
+							}
+						}
+						os.WriteFile(dp, data, 0o600)
+					}
+				}
+			}
 			switch c.Loader {
 			case "disk":
 				ropts = append(ropts, sstables.ReadIndexLoader(&sstables.DiskIndexLoader{}))
@@ -356,6 +372,26 @@ func runMerge(args []string) error {
 				}
 				probeBuf = append(probeBuf[:0], k...)
 				return probeBuf[:len(k):len(k)]
+			}
+			if c.Damage != nil {
+				for _, p := range c.Probes {
+					v, err := sup.Get(inBuf(keys[p]))
+					r := ""
+					switch {
+					case errors.Is(err, sstables.NotFound):
+						r = "NotFound"
+					case err != nil:
+						r = "err:" + err.Error()
+					default:
+						r = vt(v)
+					}
+					tr.emit(M{"t": "dmgget", "k": p, "r": r})
+				}
+				for _, rd := range readers {
+					rd.Close()
+				}
+				os.RemoveAll(base)
+				continue
 			}
 			for _, p := range c.Probes {
 				ok, err := sup.Contains(inBuf(keys[p]))
